@@ -51,36 +51,46 @@ def propsToDict (props : List (Bytes × Bytes)) : Dict :=
 def Project.propertyMap (p : Project) : Dict :=
   C15Consts.builtins.foldl (fun m kf => addProjectProperty m kf.1 (p.field kf.2)) (propsToDict p.props)
 
+/-- The interpolation function `String.interpolate` applies to one field. The functions
+below take it as a parameter (instantiated with `interpolateStr`, i.e. the model of
+`interpolating`, everywhere) so that proofs can swap in a provably equal function that
+the kernel can evaluate on concrete witnesses. -/
+abbrev InterpFn := Dict → Bytes → Bytes × Bool
+
 /-- `Dependency.interpolate`: GroupID, ArtifactID, Version, Scope, Type, Classifier,
 Optional; exclusions are not interpolated. -/
-def Dep.interpolate (m : Dict) (d : Dep) : Dep × Bool :=
-  let g := interpolateStr m d.g
-  let a := interpolateStr m d.a
-  let v := interpolateStr m d.v
-  let sc := interpolateStr m d.scope
-  let t := interpolateStr m d.typ
-  let c := interpolateStr m d.cls
-  let o := interpolateStr m d.opt
+def Dep.interpolateWith (f : InterpFn) (m : Dict) (d : Dep) : Dep × Bool :=
+  let g := f m d.g
+  let a := f m d.a
+  let v := f m d.v
+  let sc := f m d.scope
+  let t := f m d.typ
+  let c := f m d.cls
+  let o := f m d.opt
   ({ d with g := g.1, a := a.1, v := v.1, scope := sc.1, typ := t.1, cls := c.1, opt := o.1 },
    g.2 && a.2 && v.2 && sc.2 && t.2 && c.2 && o.2)
 
 /-- the two dependency loops of `Project.Interpolate`: entries without groupId or
 artifactId are skipped, entries with an unresolved placeholder are dropped -/
-def interpolateDeps (m : Dict) : List Dep → List Dep
+def interpolateDepsWith (f : InterpFn) (m : Dict) : List Dep → List Dep
   | [] => []
   | d :: rest =>
-    if d.g.isEmpty || d.a.isEmpty then interpolateDeps m rest
+    if d.g.isEmpty || d.a.isEmpty then interpolateDepsWith f m rest
     else
-      let r := d.interpolate m
-      if r.2 then r.1 :: interpolateDeps m rest else interpolateDeps m rest
+      let r := d.interpolateWith f m
+      if r.2 then r.1 :: interpolateDepsWith f m rest else interpolateDepsWith f m rest
 
 /-- `Project.Interpolate` on the modelled fields (Packaging keeps whatever
 `interpolating` returned, resolved or not). -/
-def Project.Interpolate (p : Project) : Project :=
+def Project.InterpolateWith (f : InterpFn) (p : Project) : Project :=
   let m := p.propertyMap
   { p with
-    packaging := (interpolateStr m p.packaging).1
-    deps := interpolateDeps m p.deps
-    mgmt := interpolateDeps m p.mgmt }
+    packaging := (f m p.packaging).1
+    deps := interpolateDepsWith f m p.deps
+    mgmt := interpolateDepsWith f m p.mgmt }
+
+abbrev Dep.interpolate (m : Dict) (d : Dep) : Dep × Bool := d.interpolateWith interpolateStr m
+abbrev interpolateDeps (m : Dict) (ds : List Dep) : List Dep := interpolateDepsWith interpolateStr m ds
+abbrev Project.Interpolate (p : Project) : Project := p.InterpolateWith interpolateStr
 
 end DepsDev.Model.Maven
